@@ -43,4 +43,4 @@ func TestMain(m *testing.M) {
 	os.Exit(code)
 }
 
-func TestReplay(t *testing.T) { h.Replay(t, "C08", "C17", "C18") }
+func TestReplay(t *testing.T) { h.Replay(t, "C04", "C05", "C08", "C17", "C18") }
